@@ -248,13 +248,23 @@ def run_harness(cmd, payload, timeout=1800, args=()):
     """payload: dict (mbt.Input). Returns the result dict."""
     build(cmd)
     d = _scratch("h-" + cmd)
+    # every temporary directory of the harness (and of its child processes, also those that crash or are killed) goes
+    # below one scratch root on tmpfs that is removed afterwards
+    shm = None
+    if os.path.isdir("/dev/shm"):
+        shm = "/dev/shm/verif-h-%d-%s" % (os.getpid(), os.path.basename(d))
+        os.makedirs(shm, exist_ok=True)
     try:
         inp, outp = os.path.join(d, "in.json"), os.path.join(d, "out.json")
         with open(inp, "w") as f:
             json.dump(payload, f)
         t = time.time()
+        e = env()
+        if shm:
+            e["VERIF_SHM"] = shm
+            e["TMPDIR"] = shm
         p = subprocess.run(["timeout", str(timeout), os.path.join(BUILD, "bin", cmd), inp, outp] + list(args),
-                           stdout=subprocess.PIPE, stderr=subprocess.STDOUT, text=True, env=env())
+                           stdout=subprocess.PIPE, stderr=subprocess.STDOUT, text=True, env=e)
         if p.returncode != 0 or not os.path.exists(outp):
             raise MachineryError("harness %s failed (rc=%s):\n%s" % (cmd, p.returncode, p.stdout[-6000:]))
         with open(outp) as f:
@@ -264,6 +274,8 @@ def run_harness(cmd, payload, timeout=1800, args=()):
         return res
     finally:
         shutil.rmtree(d, ignore_errors=True)
+        if shm:
+            shutil.rmtree(shm, ignore_errors=True)
 
 
 # ------------------------------------------------------- known findings ----
